@@ -245,20 +245,12 @@ func (d *driver) pureUnits(name string, vecs [][]uint64) {
 	})
 }
 
-func (d *driver) runPure(quick bool, nMax int) {
+// runPureBase: lengths 1..4 over the full alphabet and the hand-chosen vectors (both tiers).
+func (d *driver) runPureBase() {
 	var vecs [][]uint64
-	for n := 1; n <= nMax; n++ {
+	for n := 1; n <= 4; n++ {
 		vecs = append(vecs, vectors(pureAlphabet, n)...)
 	}
-	d.pureUnits(fmt.Sprintf("pure:n<=%d", nMax), vecs)
+	d.pureUnits("pure:n<=4", vecs)
 	d.pureUnits("pure:extras-near-2^64", pureExtras)
-	if quick {
-		d.pureUnits("pure:n=5:reduced-alphabet", vectors([]uint64{1, 3, 1_000_000, w62, w63}, 5))
-	} else {
-		var wide [][]uint64
-		for n := 1; n <= 5; n++ {
-			wide = append(wide, vectors(pureAlphabetWide, n)...)
-		}
-		d.pureUnits("pure:wide-alphabet:n<=5", wide)
-	}
 }
